@@ -518,6 +518,19 @@ def check(prop, tier):
                     lines_out.append('VIOLATION property=%s replay=%s obligation=%s.bounded (bounded stand-in; proof not applicable: %s)' % (
                         prop, path, u, (structural[0]['undecided'] or '')[:120]))
                 exit_code = 1
+            elif len(structural) == len(undecided) and not [r for r, f in failed]:
+                # every undecided group is a structural one and the bounded stand-in of all its units
+                # with a harness passed: the property held on everything explored, *bounded only*
+                import cexsearch as _cx
+                m = _cx.load_map()
+                covered = all(any(_cx.harness_for(u, m)[0] for u in base.get(r['group'], {}).get('units', [])
+                                  if cfg['units'] == '*' or u in cfg['units']) for r in structural)
+                ran_ok = bounded_runs and all(b.get('status') == 'none' for b in bounded_runs.values())
+                if covered and ran_ok:
+                    exit_code = 0
+                    for r in structural:
+                        lines_out.append('BOUNDED-ONLY property=%s group=%s: proof not applicable (%s); bounded stand-in passed for units %s' % (
+                            prop, r['group'], (r['undecided'] or '')[:160], ','.join(sorted(bounded_runs))))
         if exit_code == 2:
             for r in undecided:
                 lines_out.append('UNDECIDED property=%s group=%s reason=%s' % (prop, r['group'], r['undecided']))
